@@ -87,6 +87,19 @@ func (h fixedHandler) Handle(name string, body wire.Value) (wire.Value, error) {
 	return replyBody, nil
 }
 
+// recHandler is a service behind the multiplex handler: it records how it was reached
+type recHandler struct {
+	svc    string
+	called *bool
+	gotSvc *string
+	method *string
+}
+
+func (h recHandler) Handle(name string, body wire.Value) (wire.Value, error) {
+	*h.called, *h.gotSvc, *h.method = true, h.svc, name
+	return replyBody, nil
+}
+
 func replyClass(err error) string {
 	if err == nil {
 		return "none"
@@ -120,6 +133,24 @@ func clientSide(o wj.J, req []byte) {
 		} else {
 			ic["ec"] = "lazy-err"
 		}
+	}
+	// the multiplexing layer: services "a" and "" registered; the client prefixes its service name
+	{
+		var called bool
+		var svc, method string
+		mh := verifhook.NewMultiplexHandler()
+		mh.Put("a", recHandler{"a", &called, &svc, &method})
+		mh.Put("", recHandler{"", &called, &svc, &method})
+		mx := wj.J{"ok": false, "routed": false, "svc": []int{}, "method": []int{}, "reply": []int{}}
+		res, err := verifhook.NewEnvelopeServer(protocol.Binary, mh).Handle(req)
+		if err == nil {
+			mx["ok"], mx["reply"] = true, wj.Bytes(res)
+		}
+		mx["routed"], mx["svc"], mx["method"] = called, wj.Bytes([]byte(svc)), wj.Bytes([]byte(method))
+		o["mx"] = mx
+		tr := &cannedTransport{res: req}
+		verifhook.NewMultiplexClient("Svc", verifhook.NewEnvelopeClient(protocol.Binary, tr)).Send("m", replyBody)
+		o["mcsent"] = wj.Bytes(tr.sent)
 	}
 	for _, fail := range []bool{false, true} {
 		is := wj.J{"ok": false, "reply": []int{}}
